@@ -227,8 +227,9 @@ class CoupledEuler(Lemma):
     """CouplingSDE.simulate_one_path_with_coupling (real body) on a coupled driver path with n steps, m = d = 1 (times, both
     Brownian and both jump components symbolic): each component follows the scheme of the property text on the driver's
     grid -- the fine one with the fine driver path and drift mc_drift_h, the coarse one with the coarse path and mc_drift_2h,
-    the coefficient and the SDE drift evaluated at the LEFT end point t_i (a(t, x) = G(t) x, sde drift D(t): uninterpreted
-    functions of time), and the model's initial value is left untouched."""
+    the coefficient and the SDE drift evaluated at the LEFT end point t_i (a(t, x) = G(t) x; sde drift D_fine(t), D_coarse(t):
+    uninterpreted functions of time, one per component -- the scheme's drift depends on the level), and the model's initial
+    value is left untouched."""
     prop = "C16"
     cases = (1, 2)
 
@@ -246,9 +247,10 @@ class CoupledEuler(Lemma):
         x0 = np.array([x0s], dtype=object)
         dh, d2h = vc.real("driver_drift_fine"), vc.real("driver_drift_coarse")
         G = z3.Function("coefficient_at_time", z3.RealSort(), z3.RealSort())
-        D = z3.Function("sde_drift_at_time", z3.RealSort(), z3.RealSort())
+        # the drift of the SDE scheme depends on the level (grid): one uninterpreted function of time per component
+        D = z3.Function("sde_drift_of_component_at_time", z3.IntSort(), z3.RealSort(), z3.RealSort())
         Gs = lambda t_: Sym(G(as_real_term(lift(t_))), "r")
-        Ds = lambda t_: Sym(D(as_real_term(lift(t_))), "r")
+        Ds = lambda t_, comp=0: Sym(D(z3.IntVal(comp), as_real_term(lift(t_))), "r")
 
         def a_fn(i_, t_, x_):
             X = np.asarray(x_, dtype=object)
@@ -259,12 +261,14 @@ class CoupledEuler(Lemma):
         model = vc.obj(LD + "LevyDrivenSDEModel", x0=x0, a=a_obj, _m=1, _d=1)
         it.hooks[LD + "LevyDrivenSDEModel.dimension"] = lambda i_, f, b: 1
         fine = vc.obj(SD + "MarkovChainSDE", model=model)
-        it.hooks[SD + "MarkovChainSDE.sde_drift"] = lambda i_, f, b: np.array([[Ds(b["t"])]], dtype=object)
+        it.hooks[SD + "MarkovChainSDE.sde_drift"] = lambda i_, f, b: np.array([[Ds(b["t"], 7)]], dtype=object)      # the level-0 process' own: neither component's
+        drift_fn = lambda comp: it.lib.Model(lambda i_, t_, x_: np.array([[Ds(t_, comp)]], dtype=object), f"sde drift of component {comp}")
         path = vc.new("rpylib.montecarlo.path:StochasticJumpPath", np.array(ts, dtype=object), W, Lp)
         CS = "rpylib.process.coupling.couplingsde:"
         drv = vc.obj("rpylib.process.coupling.couplingmarkovchain:CouplingMarkovChain")
         it.hooks["rpylib.process.coupling.couplingmarkovchain:CouplingMarkovChain.simulate_one_path_with_coupling"] = lambda i_, f, b: path
-        o = vc.obj(CS + "CouplingSDE", model=model, fine_process=fine, mc_drift_h=dh, mc_drift_2h=d2h, driver_coupling_process=drv)
+        o = vc.obj(CS + "CouplingSDE", model=model, fine_process=fine, mc_drift_h=dh, mc_drift_2h=d2h, driver_coupling_process=drv,
+                   sde_drift_h=drift_fn(0), sde_drift_2h=drift_fn(1))
         try:
             res = vc.method(o, "simulate_one_path_with_coupling")
             val = vc.method(res, "value")
@@ -283,7 +287,7 @@ class CoupledEuler(Lemma):
             for i in range(n):
                 dt = ts[i + 1] - ts[i]
                 cur = X[-1]
-                X.append(cur + Ds(ts[i]) * dt + Gs(ts[i]) * cur * (drift * dt + (W[comp, i + 1] - W[comp, i]) + (Lp[comp, i + 1] - Lp[comp, i])))
+                X.append(cur + Ds(ts[i], comp) * dt + Gs(ts[i]) * cur * (drift * dt + (W[comp, i + 1] - W[comp, i]) + (Lp[comp, i + 1] - Lp[comp, i])))
             vc.check(nm + f"::{tag}-component-follows-the-euler-recursion-on-the-driver's-grid", And(*[x0s + val[comp, i] == X[i] for i in range(n + 1)]))
         x0_after = list(np.ravel(np.asarray(model.fields["x0"], dtype=object)))
         vc.check(nm + "::the-model's-initial-value-is-untouched", len(x0_after) == 1 and compare(x0_after[0], x0s, "=="))
@@ -306,7 +310,9 @@ class CoupledEuler(Lemma):
             return gt(t) * x.reshape(x.shape[0], 1, 1) if x.ndim == 3 else np.array([[gt(t) * np.ravel(x)[0]]])
         o = CouplingSDE.__new__(CouplingSDE)
         o.model = SimpleNamespace(x0=x0, a=a, dimension=lambda: 1, x0_value=lambda: x0)
-        o.fine_process = SimpleNamespace(sde_drift=lambda t, x: np.full_like(np.asarray(x, dtype=float), dt_(t)))
+        o.fine_process = SimpleNamespace(sde_drift=lambda t, x: np.full_like(np.asarray(x, dtype=float), 9.0))       # neither component's
+        o.sde_drift_h = lambda t, x: np.full_like(np.asarray(x, dtype=float), dt_(t))
+        o.sde_drift_2h = lambda t, x: np.full_like(np.asarray(x, dtype=float), 2.0 * dt_(t))
         o.mc_drift_h, o.mc_drift_2h = 0.05, 0.03
         o.driver_coupling_process = SimpleNamespace(simulate_one_path_with_coupling=lambda: StochasticJumpPath(ts, W, Lp))
         try:
@@ -319,7 +325,7 @@ class CoupledEuler(Lemma):
             X = x0_kept[0]
             for i in range(n):
                 d = ts[i + 1] - ts[i]
-                X = X + dt_(ts[i]) * d + gt(ts[i]) * X * (drift * d + (W[comp, i + 1] - W[comp, i]) + (Lp[comp, i + 1] - Lp[comp, i]))
+                X = X + (1 + comp) * dt_(ts[i]) * d + gt(ts[i]) * X * (drift * d + (W[comp, i + 1] - W[comp, i]) + (Lp[comp, i + 1] - Lp[comp, i]))
             got = x0_kept[0] + val[comp, -1]
             info[f"component{comp}"] = {"native_X_T": float(got), "euler_X_T": float(X)}
             bad = bad or abs(got - X) > 1e-10
@@ -527,6 +533,7 @@ class CoupledEulerBounded:
                     o = CouplingSDE.__new__(CouplingSDE)
                     o.model = SimpleNamespace(x0=x0, a=a, dimension=lambda m=m: m)
                     o.fine_process = SimpleNamespace(sde_drift=lambda t, x: np.zeros_like(x))
+                    o.sde_drift_h = o.sde_drift_2h = lambda t, x: np.zeros_like(x)        # these SDEs have no drift of their own
                     o.mc_drift_h = dh[0] if m == 1 else dh.reshape(m, 1)
                     o.mc_drift_2h = d2h[0] if m == 1 else d2h.reshape(m, 1)
                     o.driver_coupling_process = SimpleNamespace(simulate_one_path_with_coupling=lambda: StochasticJumpPath(ts, W if m > 1 else W[:, 0, :], Lp if m > 1 else Lp[:, 0, :]))
